@@ -88,7 +88,7 @@ impl Domain for D {
             let steps = rng.range(4, 25) as usize;
             // every third session uses UUID types of different sizes; every other one lets forged
             // acknowledgements empty the sender's storage
-            gen_session(&mut rng, w, steps, s as u64, s % 3 == 1, s % 2 == 0);
+            gen_session(&mut rng, w, steps, s as u64, s % 3 == 1, s % 2 == 0, s % 4 < 2);
         }
     }
 }
